@@ -13,3 +13,5 @@ import GeoVerif.Corr.C05
 import GeoVerif.Model.Polygon
 import GeoVerif.Corr.C08
 import GeoVerif.Proofs.Digits
+import GeoVerif.Model.Geoid
+import GeoVerif.Corr.C20
